@@ -20,7 +20,7 @@ ASSUMPTIONS = base.ASSUMPTIONS + [
     'old of a coalesced event and the flush-round boundaries of queued callbacks are not asserted (statement is silent)',
 ]
 REQUIRED = {'deliveries': 10000, 'settle': 5000, 'ctx_opened': 3000, 'coalesced': 300, 'discards': 300, 'triggers': 300}
-FEATS = {'cascade', 'queued', 'unwatch', 'update', 'trigger', 'slots', 'batch', 'discard', 'updatectx'}
+FEATS = {'cascade', 'queued', 'unwatch', 'update', 'trigger', 'slots', 'batch', 'discard', 'updatectx', 'twins', 'rewatch'}
 
 setup = base.setup
 
